@@ -204,47 +204,6 @@ func TestCheck(t *testing.T) {
 	exitCode = c.Finish()
 }
 
-// CrossCheckRegistry compares the go/parser scan of /repo with the compiled-in table.
-func CrossCheckRegistry(c *ev.Check) (extraMax map[string]int, ok bool) {
-	scan, err := ScanRepo()
-	if err != nil {
-		c.EngineError("scan of " + RepoDir() + " failed: " + err.Error())
-		return nil, false
-	}
-	table := sarama.VerifC09BodyNames()
-	ok = true
-	for n := range scan {
-		if _, in := table[n]; !in {
-			c.EngineError("protocol body " + n + " (" + scan[n].File + ") exists in /repo but not in the compiled-in registry: add it to bridge/verif_c09_table.go")
-			ok = false
-		}
-	}
-	for n := range table {
-		if _, in := scan[n]; !in {
-			c.EngineError("registry entry " + n + " has no type with encode+decode+key+version in /repo")
-			ok = false
-		}
-	}
-	extraMax = map[string]int{}
-	for n, b := range scan {
-		if b.HasVersion && b.MaxGate != table[n] {
-			fmt.Printf("NOTE: %s: scan finds highest version gate %d, table says %d; exploring 0..%d\n", n, b.MaxGate, table[n], maxInt(b.MaxGate, table[n]))
-			if b.MaxGate > table[n] {
-				extraMax[n] = b.MaxGate
-			}
-		}
-	}
-	c.Set("bodies_found_by_scan", len(scan))
-	return extraMax, ok
-}
-
-func maxInt(a, b int) int {
-	if a > b {
-		return a
-	}
-	return b
-}
-
 func replay(path string) int {
 	b, err := os.ReadFile(path)
 	if err != nil {
